@@ -522,9 +522,12 @@ class Vector(AutoSerialize):
             np.asarray(i) if isinstance(i, (list, np.ndarray)) else i for i in normalized
         )
 
+        # Fewer indices than dimensions address every cell of the remaining dimensions
+        idx_converted = idx_converted + (slice(None),) * (len(self.shape) - len(idx_converted))
+
         # Check if we're doing slice‐ or array‐based (multi‐cell) indexing
         has_fancy = any(
-            isinstance(i, slice) or (isinstance(i, np.ndarray) and i.size > 1)
+            isinstance(i, slice) or (isinstance(i, np.ndarray) and i.ndim > 0)
             for i in idx_converted[: len(self.shape)]
         )
 
